@@ -259,6 +259,35 @@ func genTOT() (out []tableCase) {
 	return
 }
 
+// genLoops places descriptors of every family into every descriptor loop position of the tables.
+func genLoops() (out []tableCase) {
+	for _, g := range descGens {
+		ds := g.Gen(false)
+		var picks []*astits.Descriptor
+		for _, k := range []int{0, len(ds) / 2, len(ds) - 1} {
+			d := *ds[k]
+			if n := len(ref.DescBody(&d)); n > 0 && n <= 200 { // empty bodies: C14 (the typed pointer stays nil then)
+				picks = append(picks, &d)
+			}
+		}
+		for k, d := range picks {
+			one := func() []*astits.Descriptor { x := *d; return fixLens([]*astits.Descriptor{&x, {Tag: 0x52, StreamIdentifier: &astits.DescriptorStreamIdentifier{ComponentTag: uint8(k)}}}) }
+			what := fmt.Sprintf("%s[%d] in ", g.Name, k)
+			pm := &astits.PMTData{ProgramNumber: 1, PCRPID: 0x100, ProgramDescriptors: one(), ElementaryStreams: []*astits.PMTElementaryStream{{ElementaryPID: 0x100, StreamType: 2, ElementaryStreamDescriptors: one()}, {ElementaryPID: 0x101, StreamType: 3}}}
+			out = append(out, tableCase{What: "PMT " + what + "program and ES loops", PID: 0x1000, Secs: [][]byte{SecPMT(pm, ref.SecHdr{CNI: true})}, Exp: []ExpData{{Kind: "PMT", Table: pm}}, Hdrs: []ref.SecHdr{withIDs(ref.SecHdr{CNI: true}, 2, 1, true, false)}})
+			sd := &astits.SDTData{TransportStreamID: 1, OriginalNetworkID: 2, Services: []*astits.SDTDataService{{ServiceID: 3, RunningStatus: 4, Descriptors: one()}, {ServiceID: 4, RunningStatus: 1}}}
+			out = append(out, tableCase{What: "SDT " + what + "service loop", PID: 0x11, Secs: [][]byte{SecSDT(sd, ref.SecHdr{CNI: true})}, Exp: []ExpData{{Kind: "SDT", Table: sd}}, Hdrs: []ref.SecHdr{withIDs(ref.SecHdr{CNI: true}, 0x42, 1, true, true)}})
+			ni := &astits.NITData{NetworkID: 5, NetworkDescriptors: one(), TransportStreams: []*astits.NITDataTransportStream{{TransportStreamID: 6, OriginalNetworkID: 7, TransportDescriptors: one()}, {TransportStreamID: 8, OriginalNetworkID: 9}}}
+			out = append(out, tableCase{What: "NIT " + what + "network and transport loops", PID: 0x10, Secs: [][]byte{SecNIT(ni, ref.SecHdr{CNI: true})}, Exp: []ExpData{{Kind: "NIT", Table: ni}}, Hdrs: []ref.SecHdr{withIDs(ref.SecHdr{CNI: true}, 0x40, 5, true, true)}})
+			ei := &astits.EITData{ServiceID: 1, TransportStreamID: 2, OriginalNetworkID: 3, LastTableID: 0x4e, Events: []*astits.EITDataEvent{{EventID: 1, StartTime: dvbTimes[5], Duration: time.Hour, RunningStatus: 4, Descriptors: one()}, {EventID: 2, StartTime: dvbTimes[6], Duration: time.Minute, RunningStatus: 1}}}
+			out = append(out, tableCase{What: "EIT " + what + "event loop", PID: 0x12, Secs: [][]byte{SecEIT(ei, ref.SecHdr{CNI: true})}, Exp: []ExpData{{Kind: "EIT", Table: ei}}, Hdrs: []ref.SecHdr{withIDs(ref.SecHdr{CNI: true}, 0x4e, 1, true, true)}})
+			to := &astits.TOTData{UTCTime: dvbTimes[2], Descriptors: one()}
+			out = append(out, tableCase{What: "TOT " + what + "loop", PID: 0x14, Secs: [][]byte{SecTOT(to)}, Exp: []ExpData{{Kind: "TOT", Table: to}}})
+		}
+	}
+	return
+}
+
 func c13Run(c *mc.Ctx, tc tableCase, pointer int) {
 	u := PSIUnit(tc.PID, pointer, tc.Secs, append([]ExpData{}, tc.Exp...))
 	var ps []*ref.Pkt
@@ -345,21 +374,21 @@ func checkC13(c *mc.Ctx) {
 	c.Ev.Level = "exploration"
 	c.Ev.Rule = "bounded-exhaustive table model space: per table type loop counts {0,1,2,3,fill to the section limit}, descriptor loops of 0..2 rotating kinds, every id/number field over {0, max, alternating, every single bit}, all table_id variants, all 32 versions with varying section numbers / current_next, flags; pointer fields; 1..3 sections per unit; each model is reference-encoded, demuxed by the real Demuxer and compared field for field; generic header fields and CRC through the parsePSIData hook; PAT/PMT written by the library compared byte for byte; distinct_nontrivial = distinct table models"
 	c.Ev.Assumptions = append(c.Ev.Assumptions, "descriptors inside tables come from a rotating pool of 8 kinds (descriptor space itself: C14)", "EIT start times within the MJD range of C15")
-	gens := map[string]func() []tableCase{"PAT": genPAT, "PMT": genPMT, "SDT": genSDT, "NIT": genNIT, "EIT": genEIT, "TOT": genTOT}
-	for _, name := range []string{"PAT", "PMT", "SDT", "NIT", "EIT", "TOT"} {
+	gens := map[string]func() []tableCase{"PAT": genPAT, "PMT": genPMT, "SDT": genSDT, "NIT": genNIT, "EIT": genEIT, "TOT": genTOT, "descriptor-loops": genLoops}
+	for _, name := range []string{"PAT", "PMT", "SDT", "NIT", "EIT", "TOT", "descriptor-loops"} {
 		cases := gens[name]()
 		n := int64(len(cases))
 		done := mc.ParFor(n, c.OverBudget, func(i int64) {
 			tc := cases[i]
 			c13Run(c, tc, []int{0, 0, 3, 0, 20}[i%5])
-			if name == "PAT" || name == "PMT" {
+			if tc.PID == 0 || tc.PID == 0x1000 {
 				c13Write(c, tc)
 			}
 			c.Ev.Distinct(tc.What + mc.CanonValue(tc.Exp[0].Table))
 		})
 		// multi-section units: 2 and 3 sections of consecutive cases (small ones)
 		var multi int64
-		for i := 0; i+2 < len(cases); i += 3 {
+		for i := 0; i+2 < len(cases) && name != "descriptor-loops"; i += 3 {
 			tot := 0
 			for k := 0; k < 3; k++ {
 				tot += len(cases[i+k].Secs[0])
